@@ -373,6 +373,10 @@ theorem inv2_step {s s' : State} (h : Inv s) (h2 : Inv2 s) (ev : Event) (hon : H
 end Sys
 end Pike
 
+namespace Pike
+namespace Sys
+open Entry
+
 /-- runs in which the store never returns a record that was not written to it (it may fail,
 lose writes, or report not-found at will) -/
 inductive HRun : State → List Event → State → Prop
